@@ -124,6 +124,15 @@ def widen(text, g=1, p=0, narrow=False):
     return _emit(out, trailing) if n else None
 
 
+# the VHDL delimiters a blank may be removed next to ('.' is part of a selected name; '!' '@' '^' '`' '$' '%' '#' are left
+# alone: PSL keywords such as  restrict!  and tool directives are not VHDL lexical elements)
+_VHDL_DELIM_CHARS = set("&'()*+,-/:;<=>|[]?")
+
+
+def _vsym(tok):
+    return tok[0] == "sym" and all(c in _VHDL_DELIM_CHARS for c in tok[1])
+
+
 def tight(text, g=1, p=0):
     """remove every g-th interior blank run that separates a word / literal from a symbol (lbl : a <= b  ->  lbl:a<=b);
     blanks between two words are needed, blanks between two symbols could fuse them - both are left alone"""
@@ -140,7 +149,7 @@ def tight(text, g=1, p=0):
         drop = set()
         for i in _interior_ws_positions(ln):
             a, b = ln[i - 1][0], ln[i + 1][0]
-            if (a == "sym") != (b == "sym"):
+            if (a == "sym") != (b == "sym") and (_vsym(ln[i - 1]) or _vsym(ln[i + 1])):
                 if n % g == p:
                     drop.add(i)
                 n += 1
@@ -165,7 +174,7 @@ def lopsided(text, left=True):
         pos = set(_interior_ws_positions(ln))
         drop = set()
         for i, (k, t) in enumerate(ln):
-            if k == "sym" and (i - 1) in pos and (i + 1) in pos and ln[i - 2][0] != "sym" and i + 2 < len(ln) and ln[i + 2][0] != "sym":
+            if _vsym((k, t)) and (i - 1) in pos and (i + 1) in pos and ln[i - 2][0] != "sym" and i + 2 < len(ln) and ln[i + 2][0] != "sym":
                 a, b = (i - 1, i + 1) if left else (i + 1, i - 1)
                 if a in drop or b in drop:
                     continue
